@@ -576,6 +576,22 @@ def main(tier, seed):
                        "seed": seed},
                       note="; ".join(t for (_, _, t) in o[:2]),
                       name="gate_%s_f%d_%s_%s" % (c["init"], c["flags"], c["cbm"], "_".join(str(x) for x in (c["sets"][max(k, 0)] or ["none"])[:4])))
+    # concurrency probe: "every manager initialisation runs the known-answer tests" also while another thread, on its own
+    # manager, keeps ending calls with an error (the gate in front of self_test() must look at this manager's code only)
+    cp = common.run([k20, "--conc", "1.5" if tier == "quick" else "12"], env=common.lib_env(), timeout=300)
+    mc = re.search(r"^CONC inits=(\d+) bad=(\d+)", cp.stdout, re.M)
+    res.coverage["concurrent_inits"] = int(mc.group(1)) if mc else 0
+    if not mc or cp.returncode != 0:
+        res.violation({"property": PID, "kind": "concurrency probe crashed", "rc": cp.returncode, "out": cp.stdout[-500:], "err": cp.stderr[-500:],
+                       "replay": "harness/k20_selftest --conc 1.5"}, note="k20 --conc failed", name="conc_crash")
+        reported = True
+    elif int(mc.group(2)):
+        res.violation({"property": PID, "kind": "an initialisation did not run the known-answer tests while another thread's call failed",
+                       "inits": int(mc.group(1)), "bad": int(mc.group(2)), "examples": [l for l in cp.stdout.splitlines() if l.startswith("CONC-BAD")],
+                       "replay": "harness/k20_selftest --conc 1.5"},
+                      note="%s of %s concurrent initialisations announced fewer KATs than an undisturbed one" % (mc.group(2), mc.group(1)),
+                      name="conc_kats_not_run")
+        reported = True
     if (corr_fail or broken_proof or model is None) and not reported:
         # model != code or a broken obligation, and the exhaustive singles above ARE the failing-input search
         # (every vector alone on every init function x flags, judged by the oracle): nothing fails the property itself
@@ -597,6 +613,12 @@ def main(tier, seed):
 def replay(path):
     rp = json.load(open(path))
     common.build_lib()
+    if str(rp.get("replay", "")).startswith("harness/k20_selftest --conc"):
+        k20 = common.build_harness("k20_selftest")
+        cp = common.run([k20, "--conc", "3"], env=common.lib_env(), timeout=300)
+        print(cp.stdout[-1500:])
+        mc = re.search(r"^CONC inits=(\d+) bad=(\d+)", cp.stdout, re.M)
+        return 1 if (not mc or int(mc.group(2)) or cp.returncode != 0) else 0
     info, terr = run_translator()
     k20 = common.build_harness("k20_selftest")
     c = rp.get("replay_case") or rp
